@@ -118,6 +118,8 @@ class CoverageArchive(Archive):
             solutions: The solutions to update the archive with
         """
         updated = False
+        # The solutions are looked at once per objective, an iterator only lasts for one.
+        solutions = tuple(solutions)
         for objective in self._objectives:
             best_solution = self._covered.get(objective, None)
 
